@@ -41,3 +41,13 @@ Definition f64_cost (sc w : f64) : Z := f64_to_i16 (f64_mul (f64_neg w) sc).
 (** the scale of write_dictionary / write_bigram_details: 32767.0 / (largest absolute weight) *)
 Definition f64_absmax (ws : list f64) : f64 := fold_left f64_max (map f64_abs ws) (f64_of_Z 0).
 Definition f64_scale (ws : list f64) : f64 := f64_div (f64_of_Z 32767) (f64_absmax ws).
+
+(** compute_probs: [cnt as f64 / sum as f64], and the comparator of its sort,
+    [p2.partial_cmp(p1).unwrap_or(Equal).then_with(|| i1.cmp(i2))] *)
+Definition f64_prob (cnt total : Z) : f64 := f64_div (f64_of_Z cnt) (f64_of_Z total).
+Definition prob_order (i1 c1 i2 c2 total : Z) : comparison :=
+  match f64_cmp (f64_prob c2 total) (f64_prob c1 total) with
+  | Some Lt => Lt
+  | Some Gt => Gt
+  | _ => Z.compare i1 i2
+  end.
